@@ -446,6 +446,8 @@ pub fn run(cli: Cli) -> ! {
     if let Some(pair) = cli.replay.as_ref().and_then(|c| c.get("pair")).cloned() {
         // a pair of scenarios as two interleaved connections: re-run by the pairs class of the sweep below
         println!("pair {pair}: re-running the interleaved pairs (cheap)");
+    } else if cli.replay.as_ref().is_some_and(|c| c.get("earlier").is_some()) {
+        println!("a history of two connections: the histories are re-run (cheap) by the sweep below");
     } else if let Some(case) = cli.replay.clone() {
         let spec: Spec = serde_json::from_value(case["spec"].clone()).unwrap_or_else(|e| common::machinery(&format!("bad replay: {e}")));
         if spec.devs.is_empty() {
@@ -498,6 +500,19 @@ pub fn core(rep: &Report, thorough: bool) {
     let seeds = seeds_for_patterns(6);
     if seeds.len() != 64 {
         common::machinery("could not find seeds for all 64 select-draw patterns");
+    }
+    // Two connections in one process, one after the other: the first ends badly with a clientbound frame stuck in
+    // the transport; the fresh connection that follows must be served exactly as if it were the first ever
+    // (sequential, before the parallel sweep, so that nothing else can be the source of what it sees).
+    {
+        let hist = crate::sim::after_an_aborted_connection(Some(b"earlier-secret".to_vec()));
+        for (label, first, second, alone, after) in &hist {
+            let _ = (first, second);
+            if let Some(d) = crate::sim::differs_from_alone(alone, after) {
+                rep.violation(Violation { key: "connection-depends-on-an-earlier-connection".into(), text: format!("{label}: {d}"), replay: json!({"earlier": label}), weight: 7 });
+            }
+        }
+        rep.set("histories_after_an_aborted_connection", json!(hist.len()));
     }
     let mut specs_total = 0u64;
     // the same byte stream sent lock-step, partly pipelined and in the largest possible bursts: one behaviour
